@@ -2,9 +2,9 @@
 
 Rules (all over K1 facts; oracle rows come from /verif/spec/header_fields.json):
 
-  T-CODES    `FieldCode` discriminants equal the spec's header-field codes (9 rows, no extra code below 10
-             with another meaning); its `Deserialize` maps integer n to the variant whose discriminant is n;
-             its `Serialize` writes a `u8`.
+  T-CODES    `FieldCode` discriminants equal the spec's header-field codes (9 rows; a further catch-all variant is
+             tolerated, the writer table below never emits it); its `Deserialize` maps integer n to the variant
+             whose discriminant is n; its `Serialize` writes that discriminant as a `u8`.
   T-FIELDS-W writer table: every `serialize_element` of `<Fields as Serialize>::serialize` pairs a `FieldCode`
              variant with the like-named struct field of `Fields`, wrapped in the `Value` variant whose D-Bus
              type the spec prescribes for that code; each code and each struct field is written exactly once;
@@ -26,12 +26,13 @@ Rules (all over K1 facts; oracle rows come from /verif/spec/header_fields.json):
              PRIMARY_HEADER_SIZE = 12 = byte size of the six fixed header members; `Message::body` slices the
              bytes from exactly `body_offset`.
   ORDER      `build_generic` writes header → `[..body_padding]` zero slice → body, in this order, into the one
-             cursor over the one byte vector that becomes `Inner.bytes`; the header is not mutated between
-             measuring it and writing it.
+             cursor over the one byte vector that becomes `Inner.bytes`; the header fields are not mutated
+             after the header was measured, the primary header not after it was written.
   LEN        `set_body_len` receives `body_size.size()`; `Fields.unix_fds` receives `body_size.num_fds()` and
              is written whenever that count is non-zero; `build` measures (`serialized_size`) and writes
              (`to_writer` in the body closure) the same value with the same context and hands that size to
-             `build_generic`; the fds stored with the bytes are the ones the body writer returned.
+             `build_generic`; the fds stored with the bytes are the ones the body writer returned; `build_raw_body`
+             declares `len()` of the very bytes its closure writes and `len()` of the very fds it returns.
   MAX        the `> MAX_MESSAGE_SIZE` (= 134217728) test on header+padding+body length dominates the allocation
              and its over-limit edge returns Err without allocating.
   CTX        every `Context::new_dbus` in the builder takes the endianness from the header's `endian_sig()`
@@ -207,6 +208,28 @@ def var_of(body, op):
     return ref_local(body, op)
 
 
+def upvar_idx(cb, op):
+    """indices of the captured variables an operand of closure body `cb` is read from"""
+    res = set()
+    seen = set()
+    work = [op]
+    while work:
+        o = work.pop()
+        if o[0] == "k":
+            continue
+        pl = o[1]
+        for p in pl[1]:
+            if isinstance(p, list) and p[0] == "." and str(p[3]).startswith("upvar:"):
+                res.add(p[1])
+        if pl[0] in seen:
+            continue
+        seen.add(pl[0])
+        for d in mir.defs_of(cb, pl[0]):
+            if d[0] == "assign":
+                work.extend(mir.rvalue_operands(d[4]))
+    return res
+
+
 def const_of(f, name):
     c = f.consts.get(CONSTP + name)
     return c.get("v") if c else None
@@ -230,9 +253,6 @@ def t_codes(ctx, f, spec):
         nm = by_discr.get(code)
         ctx.ob("T-CODES", "code:%s" % r["name"], nm is not None and norm(nm) == norm(r["name"]),
                "spec code %d %s ↔ FieldCode::%s" % (code, r["name"], nm), where)
-    for d, nm in sorted(by_discr.items()):
-        if d not in rows and not v_has_payload(adt, nm):
-            ctx.ob("T-CODES", "extra:%s" % nm, False, "FieldCode::%s = %d is not a header field of the specification" % (nm, d), where)
     ctx.floor("T-CODES", "spec rows", len(rows), 9)
     # decoder: integer n -> variant with discriminant n
     de = ctx.one(f.find(name="deserialize", adt=FC, trait="serde_core::de::Deserialize"), "<FieldCode as Deserialize>::deserialize")
@@ -263,11 +283,16 @@ def t_codes(ctx, f, spec):
         for vname, tgt in sorted(arms.items()):
             ks = set()
             for b, i, pl, rv, ln in mir.assignments(se):
-                if b in arm_blocks(se, tgt) and rv[0] in ("bin", "use", "cast"):
-                    for o in mir.rvalue_operands(rv):
-                        k = mir.op_const(o)
-                        if k is not None and isinstance(k.get("v"), int) and k.get("v") != 0:
-                            ks.add(k["v"])
+                if b not in arm_blocks(se, tgt):
+                    continue
+                if rv[0] == "bin" and rv[1] in ("Add", "AddWithOverflow"):
+                    ka, kb = mir.op_const(rv[2]), mir.op_const(rv[3])
+                    if ka is not None and kb is not None and isinstance(ka.get("v"), int) and isinstance(kb.get("v"), int):
+                        ks.add(ka["v"] + kb["v"])      # serde_repr writes `Variant as u8` as `<discr> + 0`
+                elif rv[0] in ("use", "cast"):
+                    k = mir.op_const(rv[1] if rv[0] == "use" else rv[2])
+                    if k is not None and isinstance(k.get("v"), int):
+                        ks.add(k["v"])
             want = [d for d, n in by_discr.items() if n == vname]
             ctx.ob("T-CODES", "encode:%s" % vname, ks == set(want), "FieldCode::%s is written as %s (discriminant %s)" % (vname, sorted(ks), want), se.where)
     return by_discr
@@ -572,13 +597,19 @@ def builder_rules(ctx, f, spec):
                     ctx.ob("OFFSET", "builder:data-context", cctx == csz, "the bytes are kept with the context they were written with", c.where)
         ctx.ob("ORDER", "builder:cursor-over-kept-vec", vec is not None and vec == kept,
                "the cursor writes into `%s`, the buffer that becomes Inner.bytes" % mir.local_name(bg, vec), bw.where)
-        # header frozen between measuring and writing
-        after = mir.reachable(bg, mir.succs(bg)[size.b])
+        # header frozen: the variable-size part (fields) may not change once it was measured, the fixed-size
+        # primary header may not change once it was written
+        after_size = mir.reachable(bg, mir.succs(bg)[size.b])
+        after_write = mir.reachable(bg, mir.succs(bg)[tw.b])
         muts = [c for c in cs if c.callee.startswith(HDR) and c.is_("fields_mut", "primary_mut") and ref_local(bg, c.args[0]) == hdr_l]
         ctx.floor("ORDER", "header mutations before measuring", len(muts), 2)
         for m in muts:
-            ctx.ob("ORDER", "builder:header-frozen:%s" % m.callee.rsplit("::", 1)[-1], m.b not in after,
-                   "header is mutated only before its size is taken", m.where)
+            if m.is_("fields_mut"):
+                ctx.ob("ORDER", "builder:header-frozen:fields_mut", m.b not in after_size,
+                       "header fields are mutated only before the header size is taken", m.where)
+            else:
+                ctx.ob("ORDER", "builder:header-frozen:primary_mut", m.b not in after_write,
+                       "the primary header is mutated only before the header is written", m.where)
     # LEN
     sets = [c for c in cs if c.callee == PH + "::set_body_len"]
     ctx.floor("LEN", "set_body_len calls in build_generic", len(sets), 1)
@@ -591,7 +622,7 @@ def builder_rules(ctx, f, spec):
         szc = [x for x in s.calls if x.callee.endswith("serialized::size::Size::size")]
         ok = len(s.calls) == 1 and len(szc) == 1 and ref_local(bg, szc[0].args[0]) == sa and not s.binops
         ctx.ob("LEN", "builder:body_len-source", ok, "body_len is body_size.size() (sources %s)" % sorted({x.callee for x in s.calls}), c.where)
-        ctx.ob("LEN", "builder:body_len-before-measure", mir.block_dominates(bg, c.b, size.b), "body_len is set before the header is measured/written", c.where)
+        ctx.ob("LEN", "builder:body_len-before-write", mir.block_dominates(bg, c.b, tw.b), "body_len is set on every path before the header is written", c.where)
     ufw = fl.field_writes(bg, FIELDS, "unix_fds")
     ctx.floor("LEN", "writes of Fields.unix_fds in build_generic", len(ufw), 1)
     for b, i, pl, rv, ln, _ in ufw:
@@ -675,27 +706,7 @@ def builder_rules(ctx, f, spec):
             if len(wr) == 1:
                 w = wr[0]
 
-                def upvar_idx(op):
-                    # captured variable index an operand is read from
-                    res = set()
-                    seen = set()
-                    work = [op]
-                    while work:
-                        o = work.pop()
-                        if o[0] == "k":
-                            continue
-                        pl = o[1]
-                        for p in pl[1]:
-                            if isinstance(p, list) and p[0] == "." and str(p[3]).startswith("upvar:"):
-                                res.add(p[1])
-                        if pl[0] in seen:
-                            continue
-                        seen.add(pl[0])
-                        for d in mir.defs_of(cb, pl[0]):
-                            if d[0] == "assign":
-                                work.extend(mir.rvalue_operands(d[4]))
-                    return res
-                ci, bi = upvar_idx(w.args[1]), upvar_idx(w.args[2])
+                ci, bi = upvar_idx(cb, w.args[1]), upvar_idx(cb, w.args[2])
                 cap = clos[4]
                 okc = len(ci) == 1 and mir.root_local(bd, cap[next(iter(ci))]) == ctx_l
                 okb = len(bi) == 1 and ref_local(bd, cap[next(iter(bi))]) == body_l
@@ -706,6 +717,51 @@ def builder_rules(ctx, f, spec):
         sig = [c for c in mir.calls(bd) if c.is_("signature") and "DynamicType" in c.declared]
         ctx.ob("LEN", "build:signature-of-body", len(sig) == 1 and ref_local(bd, sig[0].args[0]) == body_l
                and sig[0] in sources(bd, g.args[1]).calls, "the signature passed on is the body's dynamic signature", g.where)
+    # ---- build_raw_body(): the declared size / fd count are those of what its closure writes / returns
+    br = f.find(name="build_raw_body", adt=BUILDER, trait="")
+    ctx.ob("LEN", "raw:exists", len(br) == 1, "Builder::build_raw_body present", bg.where)
+    if len(br) == 1:
+        br = br[0]
+        rcs = mir.calls(br)
+        news = [c for c in rcs if c.callee.endswith("serialized::size::Size::new")]
+        setf = [c for c in rcs if c.callee.endswith("serialized::size::Size::set_num_fds")]
+        gcs = [c for c in rcs if c.callee == bg.id]
+        clos = None
+        for g in gcs:
+            for a in g.args:
+                o = mir.origin(br, a)
+                if o[0] == "rv" and o[1][0] == "agg" and o[1][1] == "closure":
+                    clos = o[1]
+        cb = f.byid(clos[2]) if clos is not None else None
+        ok_b = ok_f = False
+        d_b = d_f = "body closure not found"
+        if cb is not None and len(news) == 1 and len(gcs) == 1:
+            s0 = sources(br, news[0].args[0])
+            lens = [c for c in s0.calls if c.is_("len")]
+            blocal = var_of(br, lens[0].args[0]) if len(lens) == 1 and len(s0.calls) == 1 and not s0.binops else None
+            wr = [c for c in mir.calls(cb) if c.is_("write_all")]
+            if blocal is not None and len(wr) == 1:
+                bi = upvar_idx(cb, wr[0].args[1])
+                ok_b = len(bi) == 1 and var_of(br, clos[4][next(iter(bi))]) == blocal and \
+                    news[0] in sources(br, gcs[0].args[sa - 1]).calls + sources(br, gcs[0].args[sa - 1], extra_transparent=("set_num_fds",)).calls
+                d_b = "Size::new(%s.len()) and the closure writes captured #%s" % (mir.local_name(br, blocal), sorted(bi))
+            else:
+                d_b = "declared size is not `<bytes>.len()` of the bytes written (sources %s)" % sorted({c.callee for c in s0.calls})
+            if len(setf) == 1:
+                s1 = sources(br, setf[0].args[1])
+                fl_ = [c for c in s1.calls if c.is_("len")]
+                flocal = var_of(br, fl_[0].args[0]) if len(fl_) == 1 and len(s1.calls) == 1 and not s1.binops else None
+                ret_idx = set()
+                for b_, i_, pl_, rv_, ln_ in mir.assignments(cb):
+                    if rv_[0] == "agg" and rv_[1] == "adt" and rv_[2] == "core::result::Result" and rv_[3] == "Ok":
+                        ret_idx |= upvar_idx(cb, rv_[4][0])
+                ok_f = flocal is not None and len(ret_idx) == 1 and var_of(br, clos[4][next(iter(ret_idx))]) == flocal and \
+                    setf[0] in sources(br, gcs[0].args[sa - 1]).calls
+                d_f = "set_num_fds(%s.len()) and the closure returns captured #%s" % (mir.local_name(br, flocal), sorted(ret_idx))
+            else:
+                d_f = "%d set_num_fds call(s)" % len(setf)
+        ctx.ob("LEN", "raw:size-of-written-bytes", ok_b, d_b, br.where)
+        ctx.ob("LEN", "raw:num_fds-of-returned-fds", ok_f, d_f, br.where)
     # the signature parameter lands in Fields.signature
     sw = fl.field_writes(bg, FIELDS, "signature")
     ctx.floor("LEN", "writes of Fields.signature in build_generic", len(sw), 1)
